@@ -1,5 +1,6 @@
 import LexVerif.Proof.SepDigits
 import LexVerif.Proof.SepFreeTop
+import LexVerif.Proof.SepStrip5
 /-!
 # C13 — digit separators (property theorems about `Model.Iter` / `Model.ParseNumber`)
 
@@ -10,6 +11,12 @@ import LexVerif.Proof.SepFreeTop
   carry separator flags** (`SepClass`). For every other class with a separator byte (integer-only, fraction-only,
   exponent-only flags, no flags at all) the statement is false on the unchanged tree: `sep_free_witness_*`, and
   therefore `sep_free_same_full` is refuted (`sep_free_same_full_false`).
+* `strip_preserves` (R1): for the class where every digit component skips every separator (I+L+T+C), an input accepted
+  as a number is accepted, as the same number, after deleting the separators. `strip_preserves_full` (all formats) is
+  refuted by the I+T+C class (`strip_witness_itc`).
+* `position_witness_*` (R2): separators accepted at positions the flags do not enable.
+Not stated here: `insert_preserves` (R3) — it is the converse simulation of `strip_preserves`; the implementation-level
+check `props/C13.py` covers it.
 -/
 namespace LexVerif.Props.C13
 open LexVerif LexVerif.Model LexVerif.Spec LexVerif.Proof.Sep
@@ -136,5 +143,89 @@ theorem sep_free_same_full_false : ¬ sep_free_same_full := by
   obtain ⟨n, hn⟩ := sep_free_witness_frac_only.2
   rw [hn] at this
   cases this
+
+/-! ## 3. Deleting the separators (R1) -/
+
+/-- the digits `numberBits` reads from a stored slice do not change when the slice is stripped
+(skip-everything iterator) -/
+theorem sliceDigits_strip (c : Cfg) (k : Comp) (hk : c.skip k = .pred .iltc) (l : List Nat) :
+    sliceDigits c k (nonSep c l) = sliceDigits c k l := by
+  have h0 : ({ c with debug := false } : Cfg).skip k = .pred .iltc := hk
+  unfold sliceDigits
+  rw [parseDigits_skip { c with debug := false } k _ rfl h0, parseDigits_skip { c with debug := false } k _ rfl h0]
+  simp only [new_slc, new_index, List.drop_zero]
+  rw [(digitsSkip_strip _ _ _).1, (digitsSkip_strip _ _ _).1]
+  congr 1
+  show nonSep c (nonSep c l) = nonSep c l
+  simp [nonSep, List.filter_filter]
+
+/-- numbers related by `NumRel` have the same value -/
+theorem numberBits_strip (c : Cfg) (hA : SkipAll c) (f : Fmt) (n n' : Number) (h : NumRel c n n') :
+    numberBits c f n' = numberBits c f n := by
+  obtain ⟨h1, h2, h3, h4, h5, h6, h7⟩ := h
+  unfold numberBits
+  rw [h1, h2, h3, h4, h5, h6, h7, sliceDigits_strip c .integer hA.int]
+  cases n.fraction with
+  | none => rfl
+  | some fd => simp only [Option.map_some, sliceDigits_strip c .fraction hA.frac]
+
+/-- **R1 on the model, class I+L+T+C** (`SkipAll`: every digit component skips every separator; no base prefix /
+suffix; STANDARD's required exponent / mantissa digits; decimal point is not a sign character): an input the complete
+parser accepts as a number is still accepted after all separator bytes are deleted, as the same number — same
+mantissa, exponent, sign and digit slices up to separators — hence with the same value. -/
+theorem strip_preserves (c : Cfg) (hA : SkipAll c) (o : POpts) (hdp : o.dp ≠ 43 ∧ o.dp ≠ 45) (s : List Nat)
+    (fv : Bool) (n : Number) (cnt : Nat) (f : Fmt) (h : parseFloatSyntax c o false s fv = .ok (.number n cnt)) :
+    ∃ n', parseFloatSyntax c o false (nonSep c s) fv = .ok (.number n' (nonSep c s).length) ∧
+      NumRel c n n' ∧ numberBits c f n' = numberBits c f n := by
+  obtain ⟨n', h1, h2⟩ := parseFloatSyntax_strip c hA o hdp s fv n cnt h
+  exact ⟨n', h1, h2, numberBits_strip c hA f n n' h2⟩
+
+/-- the statement the property asks for: every format with separators (no exclusion) -/
+def strip_preserves_full : Prop :=
+  ∀ (c : Cfg), c.debug = false → (∀ k, c.skip k ≠ .unreachable) → ∀ (o : POpts) (s : List Nat) (n : Number) (cnt : Nat),
+    parseFloatSyntax c o false s = .ok (.number n cnt) →
+      ∃ n', parseFloatSyntax c o false (nonSep c s) = .ok (.number n' (nonSep c s).length) ∧
+        n'.mantissa = n.mantissa ∧ n'.exponent = n.exponent
+
+theorem iltc_skipAll : SkipAll cIltc := by
+  refine ⟨rfl, by decide, by decide, by decide, by decide, rfl, rfl, rfl, rfl, rfl, rfl, rfl, by decide, by decide⟩
+
+/-- non-vacuity: `-_1_2._5_e+_1_0_` is accepted by the I+L+T+C format -/
+example : ∃ n, parseFloatSyntax cIltc {} false [45,95,49,95,50,46,95,53,95,101,43,95,49,95,48,95] = .ok (.number n 16) ∧
+    n.mantissa = 125 ∧ n.exponent = 9 := ⟨_, rfl, rfl, rfl⟩
+
+def cItc : Cfg := cfgOf 0xfc7           -- I+T+C without L   (sep_itc; RUST / SWIFT / OCAML literal formats)
+def cIlc : Cfg := cfgOf 0xe3f           -- I+L+C without T   (sep_ilc)
+
+/-- negation witness, class I+T+C (no L): `1._1234567890123456789` is accepted with mantissa 5712345678901234567,
+the stripped `1.1234567890123456789` with 1123456789012345678 (the stored slice is re-scanned from `prev = None`) -/
+theorem strip_witness_itc :
+    (∃ n, parseFloatSyntax cItc {} false [49,46,95,49,50,51,52,53,54,55,56,57,48,49,50,51,52,53,54,55,56,57] = .ok (.number n 22) ∧
+      n.mantissa = 5712345678901234567) ∧
+    (∃ n, parseFloatSyntax cItc {} false [49,46,49,50,51,52,53,54,55,56,57,48,49,50,51,52,53,54,55,56,57] = .ok (.number n 21) ∧
+      n.mantissa = 1123456789012345678) := ⟨⟨_, rfl, rfl⟩, ⟨_, rfl, rfl⟩⟩
+
+theorem strip_preserves_full_false : ¬ strip_preserves_full := by
+  intro h
+  obtain ⟨⟨n, hn, hm⟩, ⟨n2, hn2, hm2⟩⟩ := strip_witness_itc
+  obtain ⟨n', h1, h2, _⟩ := h cItc rfl (by intro k; cases k <;> decide) {} _ n 22 hn
+  have hs : nonSep cItc [49,46,95,49,50,51,52,53,54,55,56,57,48,49,50,51,52,53,54,55,56,57]
+      = [49,46,49,50,51,52,53,54,55,56,57,48,49,50,51,52,53,54,55,56,57] := by decide
+  rw [hs, hn2] at h1
+  simp only [Except.ok.injEq, Parsed.number.injEq] at h1
+  rw [← h1.1, hm, hm2] at h2
+  cases h2
+
+/-! ### separators accepted where the flags do not allow them (R2; reproduce on the implementation) -/
+
+/-- I+T+C, leading not enabled: `+_1`, `1._5` are accepted -/
+theorem position_witness_itc :
+    (∃ n, parseFloatSyntax cItc {} false [43,95,49] = .ok (.number n 3)) ∧
+    (∃ n, parseFloatSyntax cItc {} false [49,46,95,53] = .ok (.number n 4)) := ⟨⟨_, rfl⟩, ⟨_, rfl⟩⟩
+
+/-- I+L+C, trailing not enabled: `1_`, `1.5_` are accepted -/
+theorem position_witness_ilc :
+    (∃ n, parseFloatSyntax cIlc {} false [49,95] = .ok (.number n 2)) ∧
+    (∃ n, parseFloatSyntax cIlc {} false [49,46,53,95] = .ok (.number n 4)) := ⟨⟨_, rfl⟩, ⟨_, rfl⟩⟩
 
 end LexVerif.Props.C13
